@@ -49,6 +49,25 @@ func canonicalLang(t string) (string, bool) {
 
 var rcFlag = map[string]string{"archived": "archived", "fork": "fork", "public": "public"}
 
+type reEntry struct {
+	re  *regexp.Regexp
+	err error
+}
+
+var reCache = map[string]reEntry{}
+
+func compileCached(src string) (*regexp.Regexp, error) {
+	if e, ok := reCache[src]; ok {
+		return e.re, e.err
+	}
+	re, err := regexp.Compile(src)
+	if len(reCache) > 20000 {
+		reCache = map[string]reEntry{}
+	}
+	reCache[src] = reEntry{re, err}
+	return re, err
+}
+
 func compileDoc(text string, caseSensitive bool) (*regexp.Regexp, error) {
 	// zoekt documents its patterns as Go regular expressions searched in the document; `^`/`$` are line anchors
 	// when searching file content (multi-line text), hence (?m).
@@ -56,7 +75,7 @@ func compileDoc(text string, caseSensitive bool) (*regexp.Regexp, error) {
 	if !caseSensitive {
 		flags = "(?mi)"
 	}
-	return regexp.Compile(flags + text)
+	return compileCached(flags + text)
 }
 
 // HasUpper: "the pattern has an upper-case letter" — an ASCII upper-case letter that is not the character after a backslash.
@@ -82,7 +101,7 @@ func AtomTruth(f, text, name string, caseSensitive bool, d *FlatDoc) (bool, bool
 			return false, false
 		}
 		switch f {
-		case "content":
+		case "content", "regex": // doc/query_syntax.md: "regex: Matches content using a regular expression."
 			return re.MatchString(d.D.Content), true
 		case "file":
 			return re.MatchString(d.D.Name), true
@@ -97,7 +116,7 @@ func AtomTruth(f, text, name string, caseSensitive bool, d *FlatDoc) (bool, bool
 			return re.MatchString(d.D.Content) || re.MatchString(d.D.Name), true
 		}
 	case "repo":
-		re, err := regexp.Compile(text)
+		re, err := compileCached(text)
 		if err != nil {
 			return false, false
 		}
@@ -133,7 +152,7 @@ func AtomTruth(f, text, name string, caseSensitive bool, d *FlatDoc) (bool, bool
 		}
 		return false, false
 	case "meta":
-		re, err := regexp.Compile(text)
+		re, err := compileCached(text)
 		if err != nil {
 			return false, false
 		}
@@ -248,6 +267,59 @@ func semE(e *E, docs []FlatDoc, cm int) ([]bool, bool) {
 	return nil, false
 }
 
+// SemRegexAsBarePattern: the documented meaning with one change — `regex:` read the way the parser reads it, as a
+// bare pattern (file name or content). Used only to classify a disagreement: if the implementation equals this
+// reading and not the documented one, the whole disagreement is explained by file-name matches of regex: atoms.
+func SemRegexAsBarePattern(q Qy, docs []FlatDoc) ([]bool, bool) {
+	return Sem(mapAtoms(q, func(e *E) *E {
+		if e.Field == "regex" {
+			c := *e
+			c.Field = "text"
+			return &c
+		}
+		return e
+	}), docs)
+}
+
+// HasRegexField: does the tree contain a `regex:` atom?
+func HasRegexField(q Qy) bool {
+	has := false
+	q.Atoms(func(e *E) {
+		if e.Field == "regex" {
+			has = true
+		}
+	})
+	return has
+}
+
+func mapAtoms(q Qy, f func(*E) *E) Qy {
+	var out Qy
+	for _, c := range q {
+		var nc Cj
+		for _, e := range c {
+			nc = append(nc, mapAtomsE(e, f))
+		}
+		out = append(out, nc)
+	}
+	return out
+}
+
+func mapAtomsE(e *E, f func(*E) *E) *E {
+	switch e.Kind {
+	case "atom":
+		return f(e)
+	case "neg":
+		c := *e
+		c.Sub = mapAtomsE(e.Sub, f)
+		return &c
+	case "grp":
+		c := *e
+		c.Q = mapAtoms(e.Q, f)
+		return &c
+	}
+	return e
+}
+
 func Bits(b []bool) string {
 	if len(b) == 0 {
 		return "-"
@@ -272,8 +344,22 @@ func TruthRows(q Qy, docs []FlatDoc) (string, bool) {
 	q.Atoms(func(e *E) {
 		kind, text, name := "", e.Text, ""
 		switch e.Field {
-		case "text", "regex":
+		case "text":
 			kind = "t"
+		case "regex":
+			kind = "c"
+			// the parser builds the same node as for a bare pattern (name or content): the model's tree asks for kind t
+			kt := "t\x00" + e.Text + "\x00"
+			if !seen[kt] {
+				seen[kt] = true
+				cs := make([]bool, len(docs))
+				ci := make([]bool, len(docs))
+				for i := range docs {
+					cs[i], _ = AtomTruth("text", e.Text, "", true, &docs[i])
+					ci[i], _ = AtomTruth("text", e.Text, "", false, &docs[i])
+				}
+				rows = append(rows, fmt.Sprintf("t.%s.-.%s.%s", gen.Hex([]byte(e.Text)), Bits(cs), Bits(ci)))
+			}
 		case "content":
 			kind = "c"
 		case "file":
